@@ -26,12 +26,14 @@ META = dict(
                "Tie: N real deciders exchanging serialised notes vs the cluster model evaluated in Coq, incl. the side "
                "conditions (tables equal after every step, nothing filtered); oracle: N real ENGINES (receiver, decider, "
                "producer, forwarder) with synchronous replication vs ONE real engine fed the whole stream, for every "
-               "routing, crash point and crashed subset.",
+               "routing, crash point and crashed subset - with notes handed over directly and (all 3-instance scenarios "
+               "and a third of the others) through the real BoboDistributedTCP of every instance (real _tcp_outgoing, "
+               "_tcp_incoming_handle_client, _update, AES; fake sockets and clock; a crashed peer refuses connections).",
     level_note="Trusted: Coq kernel; harness. The theorem is at decider level; the engine-level oracle covers producer/"
                "forwarder/feedback. Scope of the oracle: patterns whose block predicates ignore fed-back complex/action "
                "events (each instance generates its own complex event for a remote completion; a pattern that accepts "
                "complex events is the known finding D4). History-dependent predicates are data-based (timestamps are "
-               "per-instance). Delivery goes through to_json_str/from_json_str, not through tcp.py (C06/C09/C10/C15).",
+               "per-instance). Byte-level framing and timing of tcp.py are C09/C10/C15; link faults with all instances up are C06.",
     rule="C01-style patterns (loop, optional, negated, strict, singleton, history-dependent; all 4-block shapes over "
          "every pair of inner kinds), streams up to 6-8, every assignment of stream positions to 2 instances and sampled "
          "ones to 3, every crash point x every proper subset, finished-run memory on and off; non-trivial = a run spans "
@@ -55,7 +57,7 @@ def insensitive(p):
 
 
 def no_ts(p):
-    return "tsgap" not in repr(p)
+    return "tsgap" not in repr(p) and "tsfirst" not in repr(p)
 
 
 def gen_scenarios(ctx):
@@ -71,6 +73,16 @@ def gen_scenarios(ctx):
     d3 = dict(phen=[(1, [insensitive(G.pattern(1, G.assign(["R", "RL", "R"], 0, "distinct")))])], maxcache=20, idbase=1000)
     sc.append(dict(cfg=d3, n=2, stream=[1, 2, 3], route=[0, 0, 1], crash=None))
     sc.append(dict(cfg=d3, n=2, stream=[1, 2, 2, 3], route=[0, 1, 0, 1], crash=(2, [0])))
+    # a peer is lost while it is owed a backlog; a run started meanwhile is completed by another survivor
+    ab = dict(phen=[(1, [insensitive(G.pattern(1, G.assign(["R", "R"], 0, "distinct")))])], maxcache=0, idbase=1000)
+    for mc in (0, 20):
+        for lost in (0, 1, 2):
+            others = [k for k in range(3) if k != lost]
+            x, y = others
+            sc.append(dict(cfg=dict(ab, maxcache=mc), n=3, stream=[1, 2, 1, 2, 1, 2, 2], route=[lost, y, x, y, x, x, y],
+                           crash=(2, [lost]), tcp=True))
+            sc.append(dict(cfg=dict(ab, maxcache=mc), n=3, stream=[1, 2, 1, 2, 1, 2, 2], route=[lost, x, y, x, y, y, x],
+                           crash=(2, [lost]), tcp=True))
     for shape in shapes:
         for scheme in (0, 1):
             for v in (0, 1, 3):
@@ -119,21 +131,12 @@ def accepts_complex(cfg):
                for _ph, ps in cfg["phen"] for p in ps)
 
 
-def work(sc):
+def run_on(cl, sc, want, want_exec, transport):
+    """feed the scenario to a cluster (any transport); compare with what one engine reported"""
     cfg, n, stream, route, crash = sc["cfg"], sc["n"], sc["stream"], sc["route"], sc["crash"]
-    phs = [k for k, _ in cfg["phen"]]
-    ed = dict(cfg=cfg, tr=0, td=0, tp=0, tf=0, early=True, local_only=True, datagen=[],
-              act=[(k, (k, True, 90 + k)) for k in phs])
     fail = None
-    # one engine fed the whole stream
-    single = SC.Cluster(ed, 1)
-    for d in stream:
-        single.input(0, d)
-    want = SC.complex_content(single.nodes[0][2])
-    want_exec = len(single.nodes[0][2]["execs"])
-    cl = SC.Cluster(ed, n)
     live = list(range(n))
-    settled = True
+    settled = getattr(cl, "settled", True)
     for pos, d in enumerate(stream):
         if crash and pos == crash[0]:
             cl.crash(crash[1])
@@ -142,23 +145,53 @@ def work(sc):
         if k not in live:
             k = live[pos % len(live)]       # the survivors are fed the remainder
         settled = cl.input(k, d) and settled
-    spans = len({route[i] for i in range(len(stream))}) > 1
     sig_known = "first-block-accepts-complex-event" if accepts_complex(cfg) else None
+    sfx = "" if transport == "notes" else "-through-tcp"
     for k in live:
         got = SC.complex_content(cl.nodes[k][2])
         if got != want and fail is None:
-            fail = dict(signature=sig_known or ("survivor-differs-after-crash" if crash else "cluster-differs-from-single-engine"),
-                        what="instance %d reports complex events %s, one engine fed the whole stream reports %s"
-                             % (k, got, want), detail=dict(instance=k))
+            fail = dict(signature=sig_known or (("survivor-differs-after-crash" if crash else "cluster-differs-from-single-engine") + sfx),
+                        what="instance %d reports complex events %s, one engine fed the whole stream reports %s (replication: %s)"
+                             % (k, got, want, transport), detail=dict(instance=k, transport=transport))
     execs = sum(len(cl.nodes[k][2]["execs"]) for k in range(n))
     if fail is None and execs != want_exec:
-        fail = dict(signature=sig_known or "action-execution-count",
-                    what="%d action executions in the cluster, %d in a single engine" % (execs, want_exec), detail=None)
+        fail = dict(signature=sig_known or ("action-execution-count" + sfx),
+                    what="%d action executions in the cluster, %d in a single engine (replication: %s)" % (execs, want_exec, transport),
+                    detail=dict(transport=transport))
     if fail is None and len(live) > 1:
         tabs = [SC.runs_content(cl.nodes[k][0]) for k in live]
         if any(t != tabs[0] for t in tabs):
-            fail = dict(signature=sig_known or "replicas-differ", what="live replicas hold different partial runs", detail=tabs)
-    return fail, spans and len(want) > 0, settled
+            fail = dict(signature=sig_known or ("replicas-differ" + sfx), what="live replicas hold different partial runs (replication: %s)" % transport,
+                        detail=dict(tables=tabs, transport=transport))
+    return fail, settled
+
+
+def through_tcp(sc):
+    """which scenarios are also run with the real BoboDistributedTCP between the engines (costlier)"""
+    if accepts_complex(sc["cfg"]):
+        return False
+    return bool(sc.get("tcp")) or sc["n"] == 3 or (len(repr(sc)) % 3 == 0)
+
+
+def work(sc):
+    cfg, n, stream, route, crash = sc["cfg"], sc["n"], sc["stream"], sc["route"], sc["crash"]
+    phs = [k for k, _ in cfg["phen"]]
+    ed = dict(cfg=cfg, tr=0, td=0, tp=0, tf=0, early=True, local_only=True, datagen=[],
+              act=[(k, (k, True, 90 + k)) for k in phs])
+    # one engine fed the whole stream
+    single = SC.Cluster(ed, 1)
+    for d in stream:
+        single.input(0, d)
+    want = SC.complex_content(single.nodes[0][2])
+    want_exec = len(single.nodes[0][2]["execs"])
+    fail, settled = run_on(SC.Cluster(ed, n), sc, want, want_exec, "notes")
+    tcp = False
+    if fail is None and through_tcp(sc):
+        tcp = True
+        fail, s2 = run_on(SC.TcpCluster(ed, n), sc, want, want_exec, "tcp.py")
+        settled = settled and s2
+    spans = len({route[i] for i in range(len(stream))}) > 1
+    return fail, spans and len(want) > 0, settled, tcp
 
 
 def work_dec(case):
@@ -170,8 +203,9 @@ def work_dec(case):
 def run(ctx, res):
     scen = gen_scenarios(ctx)
     results = pmap(work, scen, chunksize=10)
-    for sc, (fail, nontrivial, settled) in zip(scen, results):
+    for sc, (fail, nontrivial, settled, tcp) in zip(scen, results):
         res.note_case(repr(sc), nontrivial)
+        res.count("also_through_tcp" if tcp else "notes_only")
         res.count("instances_%d" % sc["n"])
         res.count("crash" if sc["crash"] else "no_crash")
         res.count("settled" if settled else "not_settled")
@@ -225,7 +259,7 @@ def replay(obj):
             for b in p["blocks"]:
                 b["preds"] = [fix(x) for x in b["preds"]]
     sc = dict(case, cfg=cfg, crash=tuple(case["crash"]) if case["crash"] else None)
-    fail, _, _ = work(sc)
+    fail, _, _, _ = work(sc)
     print("scenario:", dict(n=sc["n"], stream=sc["stream"], route=sc["route"], crash=sc["crash"]))
     print("oracle  :", fail or "cluster reports what one engine fed the whole stream reports")
     return 1 if fail else 0
